@@ -162,3 +162,37 @@ def r_subst(text, *pairs):
         text = text.replace(old, new)
         n += k
     return text, n
+
+
+@rule('closure_annot')
+def closure_annot(text, param, ptype, rtype):
+    """|p| EXPR   ->   |p: PTYPE| -> RTYPE { EXPR }     (EXPR runs to the closing bracket / comma of the enclosing call).
+    Adds the parameter and result types Rust would infer and a block around the unchanged body, so that the
+    weaver can attach the closure's `ensures` (Verus does not infer closure postconditions)."""
+    n = 0
+    out = ''
+    i = 0
+    pat = re.compile(r'\|' + re.escape(param) + r'\| ')
+    while True:
+        m = pat.search(text, i)
+        if not m:
+            out += text[i:]
+            break
+        k = m.end()
+        d = 0
+        while k < len(text):
+            c = text[k]
+            if c in '([{':
+                d += 1
+            elif c in ')]}':
+                if d == 0:
+                    break
+                d -= 1
+            elif c == ',' and d == 0:
+                break
+            k += 1
+        body = text[m.end():k]
+        out += text[i:m.start()] + '|%s: %s| -> %s { %s }' % (param, ptype, rtype, body.strip())
+        i = k
+        n += 1
+    return out, n
